@@ -682,6 +682,11 @@ class Gen(object):
         henv.jump_ok = False
       if as_:
         lines.append('%s  t(type(ex).__name__)' % sp)
+        if self.chance(40):
+          # a control-flow statement inside the handler that uses the exception variable
+          self.note('handler_if_uses_exception_variable')
+          lines.append('%s  if len(ex.args) %s %d:' % (sp, self.choice(['==', '<', '!=']), self.integer(0, 2)))
+          lines.append('%s    t(len(ex.args))' % sp)
       outs.append(self.handler_block(henv, ind + 1, lines, has_fin))
     if nh and out is not None and self.chance(20):
       if self.excl('no_try_else'):
